@@ -26,6 +26,9 @@ type Ctx struct {
 	// only under --client are outside this family's dialect too.
 	NeedClient bool
 
+	// LowerCompNames: also draw component keys that start with a lower-case letter
+	LowerCompNames bool
+
 	// discriminated: object components that carry a oneOf discriminator property
 	// (shared by all variants); they are not reused as allOf members, whose property
 	// names are kept pairwise disjoint.
@@ -83,6 +86,12 @@ func (c *Ctx) PlainName(prefix, label string) string {
 
 func (c *Ctx) CompName(prefix, label string) string {
 	stem := rapid.SampledFrom(stems).Draw(c.T, label+"_stem")
+	// component keys are arbitrary strings: a third start with a lower-case letter
+	// (not for object components used as oneOf variants: goag names the variant field
+	// after the component, and an unexported field is out of reach of the harness)
+	if c.LowerCompNames && prefix != "Obj" && rapid.IntRange(0, 2).Draw(c.T, label+"_lower") == 0 {
+		prefix = strings.ToLower(prefix[:1]) + prefix[1:]
+	}
 	return fmt.Sprintf("%s%s%d", prefix, strings.Title(stem), c.next())
 }
 
@@ -349,7 +358,14 @@ func (c *Ctx) allOfSchema(depth int) *Schema {
 			s.AllOf = append(s.AllOf, &Schema{Ref: RefSchemas + name})
 			order += "R"
 		} else {
-			s.AllOf = append(s.AllOf, c.plainObject(max(depth-1, 0)))
+			m := c.plainObject(max(depth-1, 0))
+			for tries := 0; !c.AllowSchema(m, "allof-member") && tries < 6; tries++ {
+				m = c.plainObject(0)
+			}
+			if !c.AllowSchema(m, "allof-member") {
+				m = &Schema{Type: "object", Properties: map[string]*Schema{c.SafeName("p", "flat"): {Type: "string"}}}
+			}
+			s.AllOf = append(s.AllOf, m)
 			order += "I"
 		}
 	}
